@@ -13,6 +13,7 @@ import (
 	"sort"
 	"strconv"
 	"strings"
+	"time"
 
 	"github.com/Masterminds/semver/v3"
 )
@@ -137,9 +138,9 @@ func genCatalogue(r *Rng, c *suCase) {
 }
 
 // what the property allows: returns (mayInstall, the bytes that may be installed)
-func suExpected(c *suCase, runningVersion string) (bool, string) {
+func suExpected(c *suCase, runningVersion string) (bool, *ghAsset) {
 	if c.listFail {
-		return false, ""
+		return false, nil
 	}
 	cur, curErr := semver.NewVersion(runningVersion)
 	var best *ghRelease
@@ -166,10 +167,10 @@ func suExpected(c *suCase, runningVersion string) (bool, string) {
 		}
 	}
 	if best == nil {
-		return false, ""
+		return false, nil
 	}
 	if curErr == nil && !bestV.GreaterThan(cur) {
-		return false, ""
+		return false, nil
 	}
 	var asset, sums *ghAsset
 	for _, a := range best.Assets {
@@ -181,7 +182,7 @@ func suExpected(c *suCase, runningVersion string) (bool, string) {
 		}
 	}
 	if asset == nil || asset.Fail || sums == nil || sums.Fail {
-		return false, ""
+		return false, nil
 	}
 	ok := false
 	for _, l := range strings.Split(string(sums.Bytes), "\n") {
@@ -191,9 +192,9 @@ func suExpected(c *suCase, runningVersion string) (bool, string) {
 		}
 	}
 	if !ok {
-		return false, ""
+		return false, nil
 	}
-	return true, asset.Name
+	return true, asset
 }
 
 func payloadOf(a *ghAsset) (string, bool) {
@@ -268,19 +269,31 @@ func suiteSelfUpdate(env *Env, res *Result) {
 		gh.set(c.rels, c.listFail)
 		ca := filepath.Join(dir, "ca.pem")
 		_ = gh.writeCA(ca)
-		cmd := exec.Command(exe, "self-update")
-		cmd.Dir = dir
-		cmd.Env = []string{"HOME=" + dir, "PATH=/usr/bin:/bin", "HTTPS_PROXY=http://" + gh.Addr(), "https_proxy=http://" + gh.Addr(), "SSL_CERT_FILE=" + ca, "SSL_CERT_DIR=/nonexistent", "NO_PROXY=", "no_proxy="}
 		var so, se bytes.Buffer
-		cmd.Stdout, cmd.Stderr = &so, &se
-		err = runWithTimeout(cmd, 30)
 		code := 0
-		if err != nil {
-			if ee, ok := err.(*exec.ExitError); ok {
-				code = ee.ExitCode()
-			} else {
-				code = -2
+		for attempt := 0; attempt < 8; attempt++ {
+			so.Reset()
+			se.Reset()
+			cmd := exec.Command(exe, "self-update")
+			cmd.Dir = dir
+			cmd.Env = []string{"HOME=" + dir, "PATH=/usr/bin:/bin", "HTTPS_PROXY=http://" + gh.Addr(), "https_proxy=http://" + gh.Addr(), "SSL_CERT_FILE=" + ca, "SSL_CERT_DIR=/nonexistent", "NO_PROXY=", "no_proxy="}
+			cmd.Stdout, cmd.Stderr = &so, &se
+			err = runWithTimeout(cmd, 30)
+			code = 0
+			if err != nil {
+				if ee, ok := err.(*exec.ExitError); ok {
+					code = ee.ExitCode()
+				} else if strings.Contains(err.Error(), "text file busy") {
+					// the freshly written copy is still open for writing in a forked child of this
+					// (multi-threaded) harness: the binary never ran, try again
+					time.Sleep(50 * time.Millisecond)
+					continue
+				} else {
+					code = -2
+					se.WriteString("harness: " + err.Error())
+				}
 			}
+			break
 		}
 		c.res = CLIResult{Exit: code, Stdout: so.String(), Stderr: se.String()}
 		ab, _ := os.ReadFile(exe)
@@ -304,7 +317,7 @@ func suiteSelfUpdate(env *Env, res *Result) {
 			res.count(strings.SplitN(d, ":", 2)[len(strings.SplitN(d, ":", 2))-1])
 		}
 		res.count("running:" + runningVersion)
-		mayInstall, assetName := suExpected(c, runningVersion)
+		mayInstall, allowedAsset := suExpected(c, runningVersion)
 		installed := strings.HasPrefix(c.after, "CHANGED:")
 		input := map[string]interface{}{"running_version": runningVersion, "catalogue": c.desc, "releases": relSummary(c.rels), "requests": c.requests}
 		if len(c.rels) > 0 {
@@ -321,14 +334,7 @@ func suiteSelfUpdate(env *Env, res *Result) {
 				res.addFailure(Failure{Kind: "C20", Shape: shape, Input: input, Detail: fmt.Sprintf("executable replaced (exit %d); log: %s", c.res.Exit, clip(c.res.Stderr, 300))})
 			} else {
 				// must be the payload of the allowed asset
-				want := ""
-				for _, rel := range c.rels {
-					for _, a := range rel.Assets {
-						if a.Name == assetName {
-							want, _ = payloadOf(a)
-						}
-					}
-				}
+				want, _ := payloadOf(allowedAsset)
 				if payload != want {
 					res.addFailure(Failure{Kind: "C20", Shape: "c20_wrong_bytes_installed", Input: input, Detail: clip(payload, 100)})
 				}
@@ -343,6 +349,10 @@ func suiteSelfUpdate(env *Env, res *Result) {
 			} else if c.res.Exit == 0 && !suUpToDate(c, runningVersion) {
 				res.addFailure(Failure{Kind: "C20", Shape: "c20_failure_not_reported", Input: input, Detail: "executable untouched, exit 0, log: " + clip(c.res.Stderr, 300)})
 			}
+		}
+		if c.res.Exit == -2 {
+			res.count("harness-could-not-run-the-binary(skipped)")
+			continue
 		}
 		corr = append(corr, suModelCase(c, runningVersion, installed))
 	}
@@ -510,5 +520,5 @@ func suModelCase(c *suCase, runningVersion string, installed bool) CorrCase {
 		cls = "catalogue"
 	}
 	return CorrCase{Fields: []string{"self_update", rank(runningVersion), relArg, join(hashes), join(payloads)}, Impl: impl,
-		Human: "running " + runningVersion + " catalogue " + strings.Join(c.desc, " ") + " tags " + strings.Join(relSummary(c.rels), " ; "), Class: cls}
+		Human: "running " + runningVersion + " catalogue " + strings.Join(c.desc, " ") + " tags " + strings.Join(relSummary(c.rels), " ; ") + fmt.Sprintf(" [exit %d; requests %v; log %s]", c.res.Exit, c.requests, clip(c.res.Stderr, 400)), Class: cls}
 }
